@@ -37,6 +37,15 @@ var (
 	// when Decode is called on an otherwise valid bech32 string whose
 	// checksum fails validation.
 	ErrInvalidBech32Checksum = fmt.Errorf("%w: invalid checksum", ErrInvalidBech32)
+
+	// ErrInvalidBech32Payload wraps ErrInvalidBech32. It is returned when Decode
+	// is called on a string with a valid checksum whose data part holds no version
+	// character or no payload character.
+	ErrInvalidBech32Payload = fmt.Errorf("%w: missing version or payload", ErrInvalidBech32)
+
+	// ErrInvalidBech32Padding wraps ErrInvalidBech32. It is returned when Decode is
+	// called on a string whose payload does not end in fewer than 5 zero padding bits.
+	ErrInvalidBech32Padding = fmt.Errorf("%w: invalid padding", ErrInvalidBech32)
 )
 
 // Validate validates the format of the given bech32 string. The checksum
@@ -59,8 +68,8 @@ func Validate(bechAndHrp string) error {
 		if c < 33 || c > 126 {
 			// bytes between 33-126 value only
 			return ErrInvalidBech32Character
-		} else if i > sepIndex && !strings.Contains(Alphabet, string(c)) {
-			// Only base32-encoded values after the separator.
+		} else if i > sepIndex && !strings.Contains(Alphabet, strings.ToLower(string(c))) {
+			// Only base32-encoded values (of either case) after the separator.
 			return ErrInvalidBech32Character
 		}
 	}
@@ -115,6 +124,12 @@ func Decode(bechAndHrp string) (hrp string, version byte, data []byte, err error
 		return
 	}
 
+	// The data part must hold a version character and at least
+	// one payload character in addition to the checksum.
+	if len(bitGroups) < 1+1+ChecksumSize {
+		return "", 0, nil, ErrInvalidBech32Payload
+	}
+
 	if versionBytes := bitGroups[0].BigInt().Bytes(); versionBytes == nil || len(versionBytes) == 0 {
 		version = 0
 	} else {
@@ -123,18 +138,18 @@ func Decode(bechAndHrp string) (hrp string, version byte, data []byte, err error
 
 	// Cut paylout out from between version byte and checksum
 	bitGroups = bitGroups[1 : len(bitGroups)-ChecksumSize]
-
-	// If there is a not-full zero-byte at the end of the bit groups, trim it off
-	bitGroups = bits.Join(bitGroups).Split(8)
-	if lastGroup := bitGroups[len(bitGroups)-1]; len(lastGroup) != 8 && len(lastGroup.Trim()) == 0 {
-		bitGroups = bitGroups[:len(bitGroups)-1]
-	}
-
-	bitGroups[len(bitGroups)-1] = bitGroups[len(bitGroups)-1].PadLeft(8)
-
 	allBits := bits.Join(bitGroups)
 
-	data = allBits.Bytes()
+	// Regroup into bytes as BIP173 prescribes (convertbits from 5 to 8 bits without padding):
+	// the bits left over after the last whole byte are padding, there must be fewer than
+	// 5 of them and all of them must be zero.
+	nPadding := len(allBits) % 8
+	padding := allBits[len(allBits)-nPadding:]
+	if nPadding >= BitGroupSize || len(padding.Trim()) != 0 {
+		return "", 0, nil, ErrInvalidBech32Padding
+	}
+
+	data = allBits[:len(allBits)-nPadding].Bytes()
 
 	return
 }
